@@ -319,6 +319,38 @@ func (c *Ctx) registerStd(tab map[string]intrinsicFn) {
 		}
 		return IfaceV{T: c.rtypeT(), V: RTypeV{Name: n}}
 	}
+	// reflect.Value of an interpreter value: only what length queries need
+	tab["reflect.ValueOf"] = func(c *Ctx, fn *ssa.Function, a []Value) Value {
+		iv, _ := a[0].(IfaceV)
+		return RValV{V: iv}
+	}
+	tab["(reflect.Value).Len"] = func(c *Ctx, fn *ssa.Function, a []Value) Value {
+		rv, ok := a[0].(RValV)
+		if !ok {
+			panic(c.abort("reflect.Value.Len on %T", a[0]))
+		}
+		if rv.V.T == nil {
+			panic(c.goPanic("reflect: call of reflect.Value.Len on zero Value"))
+		}
+		switch x := rv.V.V.(type) {
+		case SliceV:
+			return c.St.BVC(64, uint64(x.Len))
+		case string:
+			return c.St.BVC(64, uint64(len(x)))
+		case ArrayV:
+			return c.St.BVC(64, uint64(len(x)))
+		case *MapV:
+			if x == nil {
+				return c.St.BVC(64, 0)
+			}
+			return c.St.BVC(64, uint64(len(x.Order)))
+		}
+		panic(c.abort("reflect.Value.Len of %T (a real call would panic or is unmodelled)", rv.V.V))
+	}
+	tab["(reflect.Value).IsValid"] = func(c *Ctx, fn *ssa.Function, a []Value) Value {
+		rv, _ := a[0].(RValV)
+		return c.St.BoolC(rv.V.T != nil)
+	}
 	tab["math.Float32frombits"] = func(c *Ctx, fn *ssa.Function, a []Value) Value {
 		if c.Ring {
 			if t := a[0].(*smt.Term); t.IsConst() {
@@ -466,6 +498,16 @@ func (c *Ctx) applyMath(name string, x *smt.Term) *smt.Term {
 			st.Implies(st.FPLe(x, zero), st.FPLe(r, zero)),
 		}
 		c.E.Assumptions["tanh/math32.Tanh: NaN iff NaN, tanh(+-Inf)=+-1, |tanh(x)|<=1, sign preserved (assumed of Go's routines)"] = true
+	case "log":
+		ax = []*smt.Term{
+			st.Eq(st.FPIsNaN(r), st.Or(st.FPIsNaN(x), st.FPLt(x, zero))),
+			st.Implies(st.Eq(x, pinf), st.Eq(r, pinf)),
+			st.Implies(st.FPEq(x, zero), st.Eq(r, ninf)),
+			st.Implies(st.FPLe(one, x), st.FPLe(zero, r)),
+			st.Implies(st.And(st.FPLe(zero, x), st.FPLe(x, one)), st.FPLe(r, zero)),
+			st.Implies(st.And(st.FPLt(zero, x), st.FPLt(x, pinf)), st.And(st.FPLt(ninf, r), st.FPLt(r, pinf))),
+		}
+		c.E.Assumptions["log/math32.Log: NaN iff NaN or x<0, log(+Inf)=+Inf, log(+-0)=-Inf, x>=1 => log>=0, 0<=x<=1 => log<=0, finite for finite positive x (assumed of Go's routines)"] = true
 	}
 	for _, a := range ax {
 		c.assume(a)
